@@ -58,6 +58,9 @@ def gen_sources(outdir, Ls):
     d.append('  if (cmd == "rates" || cmd == "ratesx") { auto L = t.nat(); auto ncell = t.nat(); auto np = t.nat(); bool reuse = cmd == "ratesx"; switch (L) {')
     for L in Ls: d.append(f"    case {L}: return DenseCfg<{L}>::rates(t, ncell, np, reuse);")
     d.append('    default: return "no-cfg"; } }')
+    d.append('  if (cmd == "cpassign") { auto L = t.nat(); auto ns = t.nat(); auto ncell = t.nat(); switch (L) {')
+    for L in Ls: d.append(f"    case {L}: return DenseCfg<{L}>::cpassign(t, ns, ncell);")
+    d.append('    default: return "no-cfg"; } }')
     d.append('  if (cmd == "sparse") { auto n = t.nat(); auto csc = t.nat(); auto L = t.nat(); auto blocks = t.nat(); switch (L * 2 + csc) {')
     for L in Ls:
         for c in (0, 1): d.append(f"    case {L*2+c}: return KernelCfg<{L},{'true' if c else 'false'}>::sparse(t, n, blocks);")
